@@ -289,6 +289,27 @@ fn metrics<const K: usize>(t: &Tree<i64, K>, m: &Model) -> Result<(), String> {
     if de != ede {
         return Err(format!("dfs_edge_iter() = {de:?}, expected {ede:?}"));
     }
+    // the standard iterator adaptors must see what repeated next() yields
+    let k = (d.len() * 5 + 3) % (d.len() + 1);
+    let step = 1 + d.len() % 3;
+    let via: Vec<(&str, Result<Vec<usize>, String>, Vec<usize>)> = vec![
+        ("dfs_iter().nth(k)", guard(|| t.dfs_iter().nth(k).iter().map(|x| x.index).collect()), ed.iter().skip(k).take(1).copied().collect()),
+        ("dfs_iter().skip(k)", guard(|| t.dfs_iter().skip(k).map(|x| x.index).collect()), ed.iter().skip(k).copied().collect()),
+        ("dfs_iter().step_by(s)", guard(|| t.dfs_iter().step_by(step).map(|x| x.index).collect()), ed.iter().step_by(step).copied().collect()),
+        ("dfs_iter().last()", guard(|| t.dfs_iter().last().iter().map(|x| x.index).collect()), ed.last().copied().into_iter().collect()),
+        ("dfs_edge_iter().skip(k)", guard(|| t.dfs_edge_iter().skip(k).map(|e| e.dest).collect()), ede.iter().skip(k).map(|e| e.2).collect()),
+        ("dfs_edge_iter().nth(k) then the rest", guard(|| { let mut it = t.dfs_edge_iter(); let _ = it.nth(k); it.map(|e| e.dest).collect() }), ede.iter().skip(k + 1).map(|e| e.2).collect()),
+    ];
+    for (name, got, exp) in via {
+        let got = got.map_err(|p| format!("{name} panicked: {p}"))?;
+        if got != exp {
+            return Err(format!("{name} with k={k}, s={step} yields {got:?}, repeated next() yields {exp:?}"));
+        }
+    }
+    let cnt = guard(|| t.dfs_iter().count()).map_err(|p| format!("dfs_iter().count() panicked: {p}"))?;
+    if cnt != ed.len() {
+        return Err(format!("dfs_iter().count() = {cnt}, {} items are yielded", ed.len()));
+    }
     Ok(())
 }
 
